@@ -120,9 +120,10 @@ def run(scn, kind, loop):
 
 
 if __name__ == '__main__':
+    from _guard import guarded
     loop = asyncio.new_event_loop()
     out = []
     for s in json.load(open(sys.argv[1])):
-        out.append(run(s, 'sync', loop))
-        out.append(run(s, 'async', loop))
+        out.append(guarded(run)(s, 'sync', loop))
+        out.append(guarded(run)(s, 'async', loop))
     json.dump(out, open(sys.argv[2], 'w'))
